@@ -3142,6 +3142,8 @@ class Trimesh(Geometry3D):
         copied._cache.verify()
 
         if include_cache:
+            # drop anything invalidated by an edit since the last access
+            self._cache.verify()
             # shallow copy cached items into the new cache
             # since the data didn't change here when the
             # data in the new mesh is changed these items
